@@ -18,7 +18,7 @@ PROP = {
         # byte-level MessagePack model (Model/MsgPack.lean) against the real writer and reader on generic Values,
         # written bytes, trailing bytes, every truncation of small values, flipped / inserted / deleted bytes
         {"name": "form-msgpack", "crate": "form", "bin": "sv-c16mp", "machine": "c16mp",
-         "features": [], "cases": {"quick": 400, "thorough": 300000}, "min_shard": 100,
+         "features": [], "cases": {"quick": 6000, "thorough": 300000}, "min_shard": 1500,
          "gen_args": [], "nontrivial_min_ops": 4},
     ],
     "level_text": "Proof: for every schema satisfying the explicit decidable condition tyWF (all combinations of "
